@@ -96,6 +96,51 @@ def tiny_streams():
     return out
 
 
+HUGE = (1 << 15000) - 1  # 4516 decimal digits; as an exp-Golomb code 30001 bits (3751 bytes)
+
+
+def huge_value_streams():
+    """hand-assembled streams in which ONE variable-length (exp-Golomb) field holds an integer of more than 4300
+    decimal digits -- legal bitstream syntax, a few kB long, and nothing the resource bounds exclude (picture size,
+    depths, slice counts and sample depths stay tiny).  A tool that prints or explains the value must cope."""
+    out = []
+
+    def stream(name, f, prof="HQ", sh_payload=None):
+        units = [dict(code=vb.PC_SH, payload=sh_payload or vb.sequence_header_payload(f), first_in_sequence=True)]
+        units.append(dict(code=(vb.PC_HQ_PIC if prof == "HQ" else vb.PC_LD_PIC), payload=vb.picture_payload(f, prof, 0)))
+        units.append(dict(code=vb.PC_EOS, payload=b"", npo="zero"))
+        data, _ = vb.assemble(units)
+        out.append(("huge_" + name, data))
+
+    stream("major_version", vb.Fmt(profile="HQ", version=HUGE))
+    stream("level", vb.Fmt(profile="HQ", version=2, level=HUGE))
+    stream("base_video_format", vb.Fmt(profile="HQ", version=2, base=HUGE))
+    stream("wavelet_index", vb.Fmt(profile="HQ", version=2, wavelet=HUGE))
+    # profile and minor_version: patch the header of a plain format (fields are, in order, major, minor, profile)
+    for name, idx in (("minor_version", 1), ("profile", 2)):
+        f = vb.Fmt(profile="HQ", version=2)
+        b = vb.Bits()
+        vals = [2, 0, 3, 0, 0]
+        vals[idx] = HUGE
+        for v in vals:
+            b.uint(v)
+        b.bool(1)
+        b.uint(f.width)
+        b.uint(f.height)
+        for _ in range(4):
+            b.bool(0)
+        b.bool(1)
+        b.uint(f.width)
+        b.uint(f.height)
+        b.uint(0)
+        b.uint(0)
+        b.bool(0)
+        b.bool(0)
+        b.uint(0)
+        stream(name, f, sh_payload=b.tobytes())
+    return out
+
+
 def _units(data):
     offs = pi_offsets(data)
     return [data[o:(offs[i + 1] if i + 1 < len(offs) else len(data))] for i, o in enumerate(offs)]
@@ -161,6 +206,7 @@ def base_streams():
         out.append(("hq_minimal_two_sequences", out[0][1] + out[1][1]))
         out += tiny_streams()
         out += mixed_parameter_streams(rnd)
+        out += huge_value_streams()
         out.append(("empty_stream", b""))
         _BASE = out
     return _BASE
